@@ -32,6 +32,10 @@ pub enum Op {
     CondNotifyAll(ObjId),
     CondNotifyOne(ObjId),
     Send(ObjId),
+    /// send on a bounded channel: enabled when there is room or no receiver is left
+    SendBounded(ObjId),
+    /// wake one waiter (the one at this index, modulo the number of waiters: the explorer chooses)
+    CondNotifyOneAt(ObjId, usize),
     TryRecv(ObjId),
     /// blocking receive on one channel (enabled when non-empty or disconnected)
     Recv(ObjId),
@@ -46,7 +50,7 @@ pub enum Obj {
     Mutex { owner: Option<Tid> },
     RwLock { writer: Option<Tid>, readers: usize, waiting_writers: usize },
     Condvar { waiters: Vec<Tid>, notified: Vec<Tid> },
-    Chan { len: usize, senders: usize, receivers: usize },
+    Chan { len: usize, senders: usize, receivers: usize, cap: usize },
 }
 
 #[derive(Clone, Debug, PartialEq)]
@@ -70,6 +74,7 @@ struct Th {
     status: Status,
     name: String,
     harness: bool,
+    steps: usize,
 }
 
 #[derive(Clone, Debug)]
@@ -212,6 +217,11 @@ impl State {
                 notified && matches!(self.objs[*m], Obj::Mutex { owner: None })
             }
             Op::Recv(c) => self.chan_ready(*c),
+            Op::SendBounded(c) => match &self.objs[*c] {
+                Obj::Chan { len, receivers, cap, .. } => *len < *cap || *receivers == 0,
+                _ => unreachable!(),
+            },
+            Op::CondNotifyOneAt(..) => true,
             Op::SelectReady(chs) => chs.iter().any(|c| self.chan_ready(*c)),
             Op::Join(t) => self.threads[*t].status == Status::Finished,
             Op::Quiesce => false, // handled specially
@@ -353,6 +363,7 @@ impl State {
         if self.record_ops {
             self.ops.push((t, op.clone()));
         }
+        self.threads[t].steps += 1;
         self.apply(t, op);
         self.current = Some(t);
     }
@@ -386,6 +397,14 @@ impl State {
             Op::CondNotifyAll(c) => {
                 if let Obj::Condvar { waiters, notified } = &mut self.objs[c] {
                     notified.append(waiters);
+                }
+            }
+            Op::CondNotifyOneAt(c, k) => {
+                if let Obj::Condvar { waiters, notified } = &mut self.objs[c] {
+                    if !waiters.is_empty() {
+                        let w = waiters.remove(k % waiters.len());
+                        notified.push(w);
+                    }
                 }
             }
             Op::CondNotifyOne(c) => {
@@ -554,6 +573,11 @@ pub fn thread_state(name: &str) -> ThState {
     }
     ThState::Unknown
 }
+/// Number of operations the thread called `name` has performed so far.
+pub fn thread_steps(name: &str) -> usize {
+    let st = lock();
+    st.threads.iter().find(|t| t.name == name).map(|t| t.steps).unwrap_or(0)
+}
 /// Snapshot of a scheduler object.
 pub fn obj(id: ObjId) -> Option<Obj> {
     let st = lock();
@@ -594,7 +618,7 @@ pub fn adopt(n: usize, name: &str) {
         let (ticket, op) = st.pending.pop_front().unwrap();
         let tid = st.threads.len();
         let nm = if n == 1 { name.to_string() } else { format!("{name}{i}") };
-        st.threads.push(Th { status: Status::AtPoint(op), name: nm, harness: false });
+        st.threads.push(Th { status: Status::AtPoint(op), name: nm, harness: false, steps: 0 });
         st.adopted.push((ticket, tid));
     }
     sched().cv.notify_all();
@@ -625,7 +649,7 @@ pub fn spawn<T: Send + 'static>(name: &str, f: impl FnOnce() -> T + Send + 'stat
         assert!(st.active);
         let tid = st.threads.len();
         let epoch = st.epoch;
-        st.threads.push(Th { status: Status::AtPoint(Op::Start), name: name.to_string(), harness: true });
+        st.threads.push(Th { status: Status::AtPoint(Op::Start), name: name.to_string(), harness: true, steps: 0 });
         st.live_os_threads += 1;
         (tid, epoch)
     };
@@ -710,7 +734,7 @@ pub fn run_one(prefix: &[usize], cfg: &Config, f: impl FnOnce() + Send + 'static
         st.last_tid = None;
         st.live_os_threads = 1;
         st.monitor = None;
-        st.threads.push(Th { status: Status::Running, name: "main".into(), harness: true });
+        st.threads.push(Th { status: Status::Running, name: "main".into(), harness: true, steps: 0 });
         st.current = Some(0);
     }
     // main harness thread = tid 0, on a fresh OS thread so that unwinding is contained
